@@ -147,7 +147,7 @@ CHECKS = {
              "jobs (FIFO, LIFO, seeded random): visibility/reward/decision matrices, observations, misses, pointing state, estimates, truths and stored rows are "
              "compared bit for bit across orders, and the processed job sequence of every step is replayed through the model.",
         note=BASE_TB + "Ray copies objects to workers and ray.wait is complete (only the processing order is chosen); the guarded hook seeds a task job's measurement "
-             "noise from the job so that noise does not depend on the worker process; AllVisibleDecision (one sensor, several targets per step) is outside the checked policies.",
+             "noise from the job so that noise does not depend on the worker process; all four decision policies are exercised; with AllVisibleDecision (advanced radars only) several jobs of a step report the same sensor and the model's rule (the report of the highest target id) is compared with the sensor's actual end-of-step state.",
         technique="Lean 4 proof (commutativity + induction over permutations) + real Ray runs under harness-chosen completion orders",
         ref="5/C08",
     ),
